@@ -20,7 +20,12 @@ The file has four independent layers; a harness uses them top-down.
    detaches), ``exit_process(pid)``, ``canon()`` (hashable canonical state;
    inode / object ids are (creator pid, per-creator counter), descriptor
    numbers are per process, so the canonical form does not depend on how the
-   other processes were interleaved).
+   other processes were interleaved).  Also ``stat(pid, path)`` (type and
+   size), ``link`` (hard link), and the process table: ``ospid(pid)`` the
+   operating-system pid of a simulated process (distinct numbers, see
+   ``PID_BASE``), ``kill(pid, number, 0)`` the existence probe (a process is
+   gone after ``exit_process``; ``new_process`` gives a restarted process a
+   new pid; ``residents`` are pids of live processes nobody simulates).
 
 2. Facades and seams - how library code reaches the World
    ------------------------------------------------------
@@ -35,7 +40,17 @@ The file has four independent layers; a harness uses them top-down.
    ...)`` applies the standard bindings to ``ebpfcat.ebpfcat`` /
    ``ebpfcat.lock`` (os, shutil, tempfile, open, sleep, fcntl, create_map,
    obj_pin, obj_get); harness-specific stubs (XDP class, randrange, connect)
-   are bound by the harness with ``seams.set``.
+   are bound by the harness with ``seams.set``.  ``OsFacade`` also has
+   ``getpid kill stat lstat access link fsync fdatasync lseek getuid`` and
+   ``os.path`` (``PathFacade``: exists / isfile / isdir / getsize look at the
+   simulated file system); ``sim_open`` knows the modes r w x a with + and b,
+   the file object buffers what is written until flush / close.  Whatever
+   else a module under test holds of the OS interface (``from os import
+   kill``, ``import pathlib``) is rebound by ``guard_module``.  Anything not
+   modelled raises ``Unmodelled`` (a SimBug -> INTERNAL), or - in a ``Run``
+   with ``tolerate_unmodelled = True`` - freezes the calling process there;
+   the explorer counts such states (``outside_model_states``,
+   ``unmodelled_calls`` in its statistics).
 
 3. ``Run`` - the baton scheduler
    -----------------------------
@@ -70,7 +85,8 @@ The file has four independent layers; a harness uses them top-down.
    of its own operations, so equal keys have equal futures.  With
    ``symmetric=True`` (all bodies identical) states that differ only by a
    renaming of the processes get the same key (``key_and_renaming``), own
-   mkdtemp names / ``getpid`` do not enter a process's history, and a process
+   mkdtemp names do not enter a process's history, pid numbers (own and
+   others', wherever they occur) are renamed with the processes, and a process
    takes its first step only after its predecessor did.  ``run.log`` is the
    global operation log ``(step, pid, name, args, result)``; a failed
    operation has result ``['!', exception type, errno]``.
@@ -130,7 +146,11 @@ rename, files (including a file that is unlinked while open), record locks
 exit), and the life cycle of a shared file that is unlinked by its last user
 and created again (``unlink``: the open descriptor keeps the unlinked inode
 and the locks on it alive, the new file of the same name is another inode,
-record locks are per inode).
+record locks are per inode), and what others see of a lock file written with
+builtin ``open`` and of its owner (``probe``: empty from the open on, content
+with flush / close, read / stat / exists / getsize, r+ and a modes, hard
+links, unlink and re-create under an open file, ``kill(pid, 0)`` of a live
+and of an exited process).
 """
 import contextlib
 import errno
@@ -165,6 +185,86 @@ class Id(tuple):
 
 class SimBug(BaseException):
     """problem inside the simulation or harness (never the code under test)"""
+
+
+class Unmodelled(SimBug):
+    """the code under test asked the simulated OS for something simos does
+    not model (a function, a mode, a flag).  By default that is a SimBug like
+    any other (the check ends INTERNAL: the model does not cover the code).
+    A ``Run`` with ``tolerate_unmodelled = True`` instead freezes the calling
+    process at that point (``Run.outside_model``): everything explored with
+    the process standing there is still a real execution prefix, the explorer
+    counts such states (``outside_model_states`` / ``unmodelled_calls`` in
+    its statistics) and the harness decides what that means."""
+
+
+def _unmodelled(msg):
+    """raise Unmodelled, or - inside a tolerant Run, on the thread of the
+    process that holds the baton - freeze that process (does not return)"""
+    rt = _RT
+    if rt is not None and getattr(rt, "tolerate_unmodelled", False):
+        rt.outside_model(msg)
+    raise Unmodelled(msg)
+
+
+# ---- process ids ------------------------------------------------------------
+# A simulated process has an operating-system pid: PID_BASE + PID_STRIDE *
+# generation + process index (generation: a process made by
+# ``Run.restart_process`` is a new process with a new pid; the old number is
+# dead).  The numbers are distinct, so code that stores its pid somewhere and
+# probes somebody else's (``os.kill(pid, 0)``) sees what it would see.  For
+# identical processes (``Run(symmetric=True)``) a pid is part of the identity
+# that the symmetry reduction renames: wherever a pid number occurs - as an
+# integer argument, as a decimal token in a str / bytes argument or result,
+# in the content of a file - it is renamed together with the process (see
+# ``World.canon``, ``Run._record``, ``Run.key_and_renaming``).  That is sound
+# for code that treats pids as opaque tokens (stores, compares for equality,
+# probes them); code that ORDERS pids would break the symmetry.
+PID_BASE = 70000
+PID_STRIDE = 16
+PID_GENERATIONS = 64
+_PID_RE_B = None
+
+
+def pid_number(index, generation=0):
+    if not 0 <= index < PID_STRIDE or not 0 <= generation < PID_GENERATIONS:
+        raise SimBug(f"no pid number for process {index} generation "
+                     f"{generation}")
+    return PID_BASE + PID_STRIDE * generation + index
+
+
+def pid_decode(number):
+    """-> (process index, generation) or None if not a simulated pid"""
+    if isinstance(number, int) and not isinstance(number, bool) and \
+            PID_BASE <= number < PID_BASE + PID_STRIDE * PID_GENERATIONS:
+        return (number - PID_BASE) % PID_STRIDE, \
+            (number - PID_BASE) // PID_STRIDE
+    return None
+
+
+def _pid_tokens(data, repl):
+    """replace every decimal token of bytes/str `data` that is a simulated
+    pid number by repl(index, generation) (same type as data)"""
+    global _PID_RE_B
+    import re
+    if _PID_RE_B is None:
+        _PID_RE_B = (re.compile(rb"(?<![0-9])7[0-9]{4}(?![0-9])"),
+                     re.compile(r"(?<![0-9])7[0-9]{4}(?![0-9])"))
+    if isinstance(data, str):
+        if "7" not in data:
+            return data
+
+        def sub(m):
+            d = pid_decode(int(m.group()))
+            return m.group() if d is None else repl(*d)
+        return _PID_RE_B[1].sub(sub, data)
+    if b"7" not in data:
+        return data
+
+    def subb(m):
+        d = pid_decode(int(m.group()))
+        return m.group() if d is None else repl(*d).encode()
+    return _PID_RE_B[0].sub(subb, data)
 
 
 class Abandon(BaseException):
@@ -273,14 +373,16 @@ class OpenFile:
 
 def _split(path):
     if not isinstance(path, str) or not path.startswith("/"):
-        raise SimBug(f"simos needs absolute str paths, got {path!r}")
+        raise Unmodelled(f"simos needs absolute str paths, got {path!r}")
     parts = [p for p in path.split("/") if p]
     if any(p in (".", "..") for p in parts):
-        raise SimBug(f"'.'/'..' not modelled: {path!r}")
+        raise Unmodelled(f"'.'/'..' not modelled: {path!r}")
     return parts
 
 
 class World:
+    pid_content = True   # canon(rename) renames pid numbers inside files
+
     def __init__(self, dirs=()):
         self.root = Dir()
         self.fds = {}        # pid -> {fd: OpenFile}
@@ -289,6 +391,10 @@ class World:
         self.attached = {}   # ifname -> object id
         self.counters = {}
         self.tmpnames = {}   # mkdtemp name -> (prefix, pid, n)
+        self.procgen = {}    # process index -> generation (absent: 0)
+        self.dead = set()    # process indices whose process has exited
+        self.residents = set()   # pids of live processes nobody simulates
+        self.nprocs = None   # number of simulated processes (None: any)
         for d in dirs:
             self.makedirs(0, d, exist_ok=True)
 
@@ -378,6 +484,65 @@ class World:
         except OSError:
             return False
 
+    def stat(self, pid, path):
+        """os.stat of a path: file type and size only (all else is 0)"""
+        _, _, node = self._walk(path)
+        if node is None:
+            raise _err(errno.ENOENT, path)
+        if isinstance(node, Dir):
+            return _os.stat_result((0o040755, 0, 0, 2, 0, 0, 4096, 0, 0, 0))
+        if isinstance(node, Pin):
+            return _os.stat_result((0o100600, 0, 0, 1, 0, 0, 0, 0, 0, 0))
+        return _os.stat_result((0o100644, 0, 0, 1, 0, 0, len(node.data),
+                                0, 0, 0))
+
+    def link(self, pid, src, dst):
+        """hard link: a second name for the same inode (files only)"""
+        _, _, snode = self._walk(src)
+        if snode is None:
+            raise _err(errno.ENOENT, src)
+        if isinstance(snode, Dir):
+            raise _err(errno.EPERM, src)
+        dp, dn, dnode = self._walk(dst)
+        if dnode is not None or dp is None:
+            raise _err(errno.EEXIST, src)
+        dp.entries[dn] = snode
+
+    # -------------------------------------------------------------- processes
+    def ospid(self, pid):
+        """the operating-system pid of simulated process `pid` (an index)"""
+        return pid_number(pid, self.procgen.get(pid, 0))
+
+    def new_process(self, pid):
+        """process index `pid` is a new process from now on (restart)"""
+        self.procgen[pid] = self.procgen.get(pid, 0) + 1
+        self.dead.discard(pid)
+
+    def alive(self, number):
+        """is there a process with this pid number?"""
+        if number in self.residents:
+            return True
+        d = pid_decode(number)
+        if d is None:
+            return False
+        idx, gen = d
+        if self.nprocs is not None and idx >= self.nprocs:
+            return False
+        return self.procgen.get(idx, 0) == gen and idx not in self.dead
+
+    def kill(self, pid, number, sig):
+        """os.kill: only the existence probe (signal 0) is modelled"""
+        if not isinstance(number, int) or isinstance(number, bool):
+            raise TypeError("an integer is required")
+        if number <= 0:
+            raise Unmodelled("os.kill of pid <= 0 (process groups) is not "
+                             "modelled by simos")
+        if sig != 0:
+            raise Unmodelled(f"os.kill with signal {sig}: delivering signals "
+                             "is not modelled by simos")
+        if not self.alive(number):
+            raise ProcessLookupError(errno.ESRCH, _os.strerror(errno.ESRCH))
+
     def rmdir(self, pid, path):
         parent, name, node = self._walk(path)
         if node is None:
@@ -447,9 +612,9 @@ class World:
             if isinstance(node, Dir):
                 if acc != _os.O_RDONLY or flags & _os.O_CREAT:
                     raise _err(errno.EISDIR, path)
-                raise SimBug("opening directories is not modelled")
+                raise Unmodelled("opening directories is not modelled")
             if isinstance(node, Pin):
-                raise SimBug("open() of a bpf pin is not modelled")
+                raise Unmodelled("open() of a bpf pin is not modelled")
             if flags & _os.O_TRUNC and acc != _os.O_RDONLY:
                 del node.data[:]
         return self._newfd(pid, OpenFile("file", node, flags))
@@ -557,7 +722,7 @@ class World:
     @staticmethod
     def _range(length, start):
         if length < 0 or start < 0:
-            raise SimBug("negative lockf length/start not modelled")
+            raise Unmodelled("negative lockf length/start not modelled")
         return start, (INF if length == 0 else start + length)
 
     def lock_conflict(self, pid, fd, cmd, length=0, start=0):
@@ -576,7 +741,7 @@ class World:
     def lockf(self, pid, fd, cmd, length=0, start=0, whence=0):
         import fcntl
         if whence != 0:
-            raise SimBug("lockf whence != 0 not modelled")
+            raise Unmodelled("lockf whence != 0 not modelled")
         of = self._fd(pid, fd, "file")
         s, e = self._range(length, start)
         acc = of.flags & _os.O_ACCMODE
@@ -649,6 +814,7 @@ class World:
         for fd in sorted(self.fds.get(pid, {})):
             self.close(pid, fd)
         self.fds.pop(pid, None)
+        self.dead.add(pid)
 
     # ------------------------------------------------------------------ canon
     def canon(self, rename=None):
@@ -675,6 +841,11 @@ class World:
         live = set(self.attached.values())
 
         def content(d):
+            if rename is not None and self.pid_content:
+                # pid numbers in a file are renamed with their processes
+                d = _pid_tokens(bytes(d), lambda i, g: str(
+                    pid_number(R(i), g) if i in rename else
+                    pid_number(i, g)))
             if len(d) > 128:
                 return (len(d), hashlib.blake2b(
                     bytes(d), digest_size=8).hexdigest())
@@ -708,9 +879,14 @@ class World:
         locks = tuple(sorted(
             (rid(i), tuple(sorted((R(q), a, b, m) for q, a, b, m in ls)))
             for i, ls in self.locks.items()))
+        def rp(i):
+            return R(i) if rename is None or i in rename else i
+        procs = (tuple(sorted((rp(i), g) for i, g in self.procgen.items())),
+                 tuple(sorted(rp(i) for i in self.dead)),
+                 tuple(sorted(self.residents)))
         return (tree, tuple(sorted(inodes.items())), tuple(fds), locks, objs,
                 tuple(sorted((k, rid(v))
-                             for k, v in self.attached.items())))
+                             for k, v in self.attached.items())), procs)
 
     def dump(self, path="/"):
         """{path: 'dir' | bytes | ('pin', obj)} for reports / conformance"""
@@ -802,21 +978,134 @@ class DirectRuntime:
         _RT = self._prev
 
 
+class PathFacade:
+    """stands in for ``os.path``: the functions that look at the file system
+    look at the simulated one (each is a scheduling point), the purely
+    lexical ones are the real ones"""
+    _PURE = ("join", "basename", "dirname", "split", "splitext", "normpath",
+             "isabs", "sep", "commonprefix", "commonpath", "relpath")
+
+    def __getattr__(self, name):
+        if name in self._PURE:
+            return getattr(_os.path, name)
+        _unmodelled(f"os.path.{name} is not modelled by simos")
+
+    @staticmethod
+    def _stat(path, what):
+        rt = current()
+        box = []
+
+        def do():
+            box.append(rt.world.stat(rt.pid(), path))
+            return [box[0].st_mode, box[0].st_size]
+        try:
+            rt.syscall(what, (path,), do)
+        except OSError:
+            return None
+        return box[0]
+
+    def exists(self, path):
+        return self._stat(path, "exists") is not None
+
+    lexists = exists
+
+    def isfile(self, path):
+        st = self._stat(path, "isfile")
+        return st is not None and st.st_mode & 0o170000 == 0o100000
+
+    def isdir(self, path):
+        st = self._stat(path, "isdir")
+        return st is not None and st.st_mode & 0o170000 == 0o040000
+
+    def getsize(self, path):
+        rt = current()
+        return rt.syscall("getsize", (path,),
+                          lambda: rt.world.stat(rt.pid(), path).st_size)
+
+
 class OsFacade:
     """stands in for module ``os`` inside a module under test"""
-    _PURE = ("strerror", "fspath", "fsencode", "fsdecode", "path", "sep",
-             "error")
+    _PURE = ("strerror", "fspath", "fsencode", "fsdecode", "sep", "error",
+             "environ", "getenv")
+    path = PathFacade()
 
     def __getattr__(self, name):
         v = getattr(_os, name)
         if isinstance(v, int) or name in self._PURE:
             return v
-        raise SimBug(f"os.{name} is not modelled by simos")
+        _unmodelled(f"os.{name} is not modelled by simos")
 
     def getpid(self):
+        """distinct numbers for distinct processes (see PID_BASE); for
+        identical processes the number is renamed with the process"""
         rt = current()
-        # identical processes: nobody reads the pid written into lock files
-        return 1000 if getattr(rt, "symmetric", False) else 1000 + rt.pid()
+        return rt.world.ospid(rt.pid())
+
+    def getuid(self):
+        return 0
+
+    geteuid = getuid
+
+    def kill(self, pid, sig):
+        rt = current()
+        return rt.syscall("kill", (pid, int(sig)),
+                          lambda: rt.world.kill(rt.pid(), pid, int(sig)))
+
+    def stat(self, path, *a, **kw):
+        """os.stat / os.lstat of a path: type and size; the recorded result
+        of the operation is [mode, size]"""
+        if a or kw:
+            _unmodelled("os.stat with dir_fd / follow_symlinks is not "
+                        "modelled by simos")
+        if isinstance(path, int):
+            return self.fstat(path)
+        rt = current()
+        box = []
+
+        def do():
+            box.append(rt.world.stat(rt.pid(), path))
+            return [box[0].st_mode, box[0].st_size]
+        rt.syscall("stat", (path,), do)
+        return box[0]
+
+    lstat = stat
+
+    def access(self, path, mode, *a, **kw):
+        rt = current()
+
+        def do():
+            try:
+                rt.world.stat(rt.pid(), path)
+            except OSError:
+                return False
+            return True
+        return rt.syscall("access", (path, mode), do)
+
+    def link(self, src, dst, *a, **kw):
+        if a or kw:
+            _unmodelled("os.link with dir_fd is not modelled by simos")
+        rt = current()
+        return rt.syscall("link", (src, dst),
+                          lambda: rt.world.link(rt.pid(), src, dst))
+
+    def fsync(self, fd):
+        rt = current()
+        return rt.syscall("fsync", (fd,),
+                          lambda: rt.world._fd(rt.pid(), fd) and None)
+
+    fdatasync = fsync
+
+    def lseek(self, fd, pos, how):
+        rt = current()
+
+        def do():
+            of = rt.world._fd(rt.pid(), fd, "file")
+            base = {0: 0, 1: of.pos, 2: len(of.ref.data)}.get(how)
+            if base is None or base + pos < 0:
+                raise _err(errno.EINVAL)
+            of.pos = base + pos
+            return of.pos
+        return rt.syscall("lseek", (fd, pos, how), do)
 
     def makedirs(self, name, mode=0o777, exist_ok=False):
         rt = current()
@@ -908,7 +1197,7 @@ class FcntlFacade:
         v = getattr(fcntl, name)
         if isinstance(v, int):
             return v
-        raise SimBug(f"fcntl.{name} is not modelled by simos")
+        _unmodelled(f"fcntl.{name} is not modelled by simos")
 
     def lockf(self, fd, cmd, len=0, start=0, whence=0):
         import fcntl
@@ -932,7 +1221,7 @@ class FcntlFacade:
 
 class ShutilFacade:
     def __getattr__(self, name):
-        raise SimBug(f"shutil.{name} is not modelled by simos")
+        _unmodelled(f"shutil.{name} is not modelled by simos")
 
     def rmtree(self, path, ignore_errors=False):
         rt = current()
@@ -946,41 +1235,161 @@ class ShutilFacade:
 
 class TempfileFacade:
     def __getattr__(self, name):
-        raise SimBug(f"tempfile.{name} is not modelled by simos")
+        _unmodelled(f"tempfile.{name} is not modelled by simos")
 
     def mkdtemp(self, suffix=None, prefix=None, dir=None):
         rt = current()
         if dir is None or suffix:
-            raise SimBug("mkdtemp needs dir= and no suffix in simos")
+            _unmodelled("mkdtemp needs dir= and no suffix in simos")
         return rt.syscall("mkdtemp", (dir,), lambda: rt.world.mkdtemp(
             rt.pid(), dir, prefix or "tmp"))
 
 
 class SimTextFile:
-    """what builtin open() returns: buffered text, flushed on close"""
+    """what builtin open() returns: a buffered file.  What is written stays
+    in the buffer until ``flush()`` / ``close()`` (two points: the file
+    exists - empty - from ``open`` on, its content arrives later); reading
+    flushes first.  Text mode unless ``binary``."""
 
-    def __init__(self, fd, readable):
+    def __init__(self, fd, readable=True, binary=False, name=None, mode="r"):
         self.fd = fd
         self.buf = []
         self.closed = False
         self.readable = readable
+        self.binary = binary
+        self.name = name
+        self.mode = mode
+        self.rbuf = ""          # text mode: read ahead, not yet asked for
+
+    def fileno(self):
+        return self.fd
 
     def write(self, s):
-        if not isinstance(s, str):
+        if self.closed:
+            raise ValueError("I/O operation on closed file.")
+        if self.binary:
+            s = bytes(s)
+        elif not isinstance(s, str):
             raise TypeError("write() argument must be str")
         self.buf.append(s)
         return len(s)
 
-    def read(self):
+    def writelines(self, lines):
+        for l in lines:
+            self.write(l)
+
+    def _pending(self):
+        data = b"".join(self.buf) if self.binary \
+            else "".join(self.buf).encode()
+        self.buf = []
+        return data
+
+    def flush(self):
+        data = self._pending()
+        if data:
+            rt = current()
+            rt.syscall("write", (self.fd, data),
+                       lambda: rt.world.write(rt.pid(), self.fd, data))
+
+    def _raw(self, n):
         rt = current()
         return rt.syscall("read", (self.fd,), lambda: rt.world.read(
-            rt.pid(), self.fd, 1 << 30)).decode()
+            rt.pid(), self.fd, n))
+
+    def _read(self, n):
+        if self.closed:
+            raise ValueError("I/O operation on closed file.")
+        self.flush()
+        everything = n is None or n < 0
+        if self.binary:
+            return self._raw((1 << 30) if everything else n)
+        # text: like TextIOWrapper the file is read ahead in chunks; what
+        # was not asked for yet stays decoded in self.rbuf, and the file
+        # position (where a write would land) is behind the chunk
+        if everything:
+            out = self.rbuf + self._raw(1 << 30).decode()
+            self.rbuf = ""
+            return out
+        while len(self.rbuf) < n:
+            chunk = self._raw(8192).decode()
+            if not chunk:
+                break
+            self.rbuf += chunk
+        out, self.rbuf = self.rbuf[:n], self.rbuf[n:]
+        return out
+
+    def read(self, n=-1):
+        return self._read(n)
+
+    def readline(self):
+        if self.binary:
+            # everything is read, what follows the line is given back by
+            # moving the file position (no scheduling point of its own)
+            rest = self._read(-1)
+            i = rest.find(b"\n")
+            if i < 0 or i == len(rest) - 1:
+                return rest
+            rt = current()
+            of = rt.world._fd(rt.pid(), self.fd, "file")
+            of.pos -= len(rest) - i - 1
+            return rest[:i + 1]
+        if self.closed:
+            raise ValueError("I/O operation on closed file.")
+        self.flush()
+        while "\n" not in self.rbuf:
+            chunk = self._raw(8192).decode()
+            if not chunk:
+                break
+            self.rbuf += chunk
+        i = self.rbuf.find("\n")
+        i = len(self.rbuf) if i < 0 else i + 1
+        out, self.rbuf = self.rbuf[:i], self.rbuf[i:]
+        return out
+
+    def readlines(self):
+        return self._read(-1).splitlines(True)
+
+    def __iter__(self):
+        return iter(self.readlines())
+
+    def seek(self, pos, whence=0):
+        self.flush()
+        if self.rbuf and whence == 1:
+            _unmodelled("relative seek in a text file is not modelled")
+        self.rbuf = ""
+        rt = current()
+
+        def do():
+            of = rt.world._fd(rt.pid(), self.fd, "file")
+            base = {0: 0, 1: of.pos, 2: len(of.ref.data)}.get(whence)
+            if base is None or base + pos < 0:
+                raise _err(errno.EINVAL)
+            of.pos = base + pos
+            return of.pos
+        return rt.syscall("lseek", (self.fd, pos, whence), do)
+
+    def tell(self):
+        if self.rbuf:
+            _unmodelled("tell() of a text file with read-ahead is not "
+                        "modelled")
+        rt = current()
+        return rt.world._fd(rt.pid(), self.fd, "file").pos + sum(
+            len(x if self.binary else x.encode()) for x in self.buf)
+
+    def truncate(self, size=None):
+        self.flush()
+        rt = current()
+        if size is None:
+            size = rt.world._fd(rt.pid(), self.fd, "file").pos
+        rt.syscall("ftruncate", (self.fd, size),
+                   lambda: rt.world.ftruncate(rt.pid(), self.fd, size))
+        return size
 
     def close(self):
         if self.closed:
             return
         rt = current()
-        data = "".join(self.buf).encode()
+        data = self._pending()
 
         def do():
             if data:
@@ -997,18 +1406,29 @@ class SimTextFile:
 
 
 def sim_open(path, mode="r", *a, **kw):
-    """builtin open() for text modes r, w, x, a"""
-    m = mode.replace("t", "")
-    flags = {"r": _os.O_RDONLY,
-             "w": _os.O_WRONLY | _os.O_CREAT | _os.O_TRUNC,
-             "x": _os.O_WRONLY | _os.O_CREAT | _os.O_EXCL,
-             "a": _os.O_WRONLY | _os.O_CREAT | _os.O_APPEND}.get(m)
-    if flags is None:
-        raise SimBug(f"open mode {mode!r} not modelled")
+    """builtin open() for the modes r, w, x, a, optionally with + and / or b
+    (text is UTF-8; buffering / encoding arguments are ignored)"""
+    if not isinstance(mode, str):
+        raise TypeError("open() argument 'mode' must be str")
+    if isinstance(path, int):
+        _unmodelled("open() of a file descriptor is not modelled by simos")
+    binary = "b" in mode
+    plus = "+" in mode
+    m = mode.replace("t", "").replace("b", "").replace("+", "")
+    flags = {"r": 0,
+             "w": _os.O_CREAT | _os.O_TRUNC,
+             "x": _os.O_CREAT | _os.O_EXCL,
+             "a": _os.O_CREAT | _os.O_APPEND}.get(m)
+    if flags is None or len(mode) != len(set(mode)):
+        _unmodelled(f"open mode {mode!r} not modelled")
+    flags |= _os.O_RDWR if plus else \
+        (_os.O_RDONLY if m == "r" else _os.O_WRONLY)
     rt = current()
-    fd = rt.syscall("open", (path, m),
+    # (the recorded mode of the plain text modes is what it always was)
+    shown = m + ("+" if plus else "") + ("b" if binary else "")
+    fd = rt.syscall("open", (path, shown),
                     lambda: rt.world.open(rt.pid(), path, flags))
-    return SimTextFile(fd, m == "r")
+    return SimTextFile(fd, m == "r" or plus, binary, path, mode)
 
 
 async def sim_sleep(delay=0, result=None):
@@ -1327,7 +1747,78 @@ def install_ebpfcat(seams, ebpfcat_mod=True, lock_mod=True):
         seams.set(l, "os", osf)
         seams.set(l, "fcntl", fc)
         seams.set(l, "sleep", sim_sleep)
+        guard_module(seams, l, osf, fc)
+    if ebpfcat_mod:
+        guard_module(seams, m, osf, fc)
     return osf, fc
+
+
+class _UnmodelledThing:
+    """stands in for a module / function / class of the operating system
+    interface that a module under test holds and simos has no model of: any
+    use is an unmodelled call (never a silent visit to the real OS)"""
+
+    def __init__(self, what):
+        self.__dict__["_what"] = what
+
+    def __getattr__(self, name):
+        if name.startswith("__") and name.endswith("__"):
+            raise AttributeError(name)
+        _unmodelled(f"{self._what}.{name} is not modelled by simos")
+
+    def __call__(self, *a, **kw):
+        _unmodelled(f"{self._what} is not modelled by simos")
+
+
+_OS_MODULES = ("pathlib", "glob", "signal", "subprocess", "psutil")
+_OS_FUNCTION_HOMES = {"posix": "os", "os": "os", "posixpath": "os.path",
+                      "genericpath": "os.path", "shutil": "shutil",
+                      "tempfile": "tempfile", "fcntl": "fcntl",
+                      "pathlib": "pathlib", "glob": "glob",
+                      "signal": "signal", "subprocess": "subprocess"}
+
+
+def guard_module(seams, module, osf=None, fc=None):
+    """whatever else `module` holds of the operating-system interface - a
+    module object (``import pathlib``) or a function / class imported by name
+    (``from os import kill``, ``from os.path import exists``, ``from pathlib
+    import Path``) - is rebound: to the facade's function of that name where
+    there is one, else to a stand-in whose use is an unmodelled call.  Names
+    that are already rebound through Seams are left alone."""
+    import types
+    osf = osf or OsFacade()
+    fc = fc or FcntlFacade()
+    facades = {"os": osf, "os.path": osf.path, "shutil": ShutilFacade(),
+               "tempfile": TempfileFacade(), "fcntl": fc}
+    for name, v in sorted(vars(module).items()):
+        if name.startswith("__") or (id(module), name) in _SEAMED:
+            continue
+        if isinstance(v, types.ModuleType):
+            # a module of the OS interface under whatever name
+            fac = {"os": osf, "posix": osf, "posixpath": osf.path,
+                   "genericpath": osf.path, "shutil": facades["shutil"],
+                   "tempfile": facades["tempfile"],
+                   "fcntl": fc}.get(v.__name__)
+            if fac is not None:
+                seams.set(module, name, fac)
+            elif v.__name__.partition(".")[0] in _OS_MODULES:
+                seams.set(module, name, _UnmodelledThing(v.__name__))
+            continue
+        home = getattr(v, "__module__", None)
+        if not callable(v) or not isinstance(home, str):
+            continue
+        home = _OS_FUNCTION_HOMES.get(home.partition(".")[0]
+                                      if home.startswith("pathlib") else home)
+        if home is None:
+            continue
+        real = getattr(v, "__name__", name)
+        fac = facades.get(home)
+        if home == "os.path" and real in PathFacade._PURE:
+            continue
+        if fac is not None and any(real in vars(c) for c in type(fac).__mro__):
+            seams.set(module, name, getattr(fac, real))
+        elif not (home == "os" and real in OsFacade._PURE):
+            seams.set(module, name, _UnmodelledThing(f"{home}.{real}"))
 
 
 def drive(coro):
@@ -1425,6 +1916,7 @@ class Proc:
         self.thread = None
         self.status = "new"     # new parked running done failed crashed
         self.pending = None     # (name, args) of the parked operation
+        self.pending_raw = None  # ... with the arguments as they were given
         self.enabled = None     # predicate or None
         self.options = None     # list for a choice point
         self.chosen = None
@@ -1437,6 +1929,8 @@ class Proc:
         self.outcome = None
         self.lock_fail = None   # (ino, s, e, mode) of a just-failed NB lockf
         self.libstate = None    # its copy of the library's module/class data
+        self.refs = []          # (symmetric) other processes whose pid
+        #                         numbers occur in the history, in order
 
 
 class Run:
@@ -1467,6 +1961,11 @@ class Run:
         self.si = 0
         self.allow_crash = True
         self._lib_owner = None   # whose library data is installed right now
+        # True: a process that asks for something simos does not model is
+        # frozen there (see Unmodelled) instead of ending the run as a SimBug
+        self.tolerate_unmodelled = False
+        if getattr(world, "nprocs", 0) is None:
+            world.nprocs = len(self.procs)
 
     # ---- called on process threads -------------------------------------
     def pid(self):
@@ -1506,10 +2005,11 @@ class Run:
             p.chosen = c[1]
         return p
 
-    def _park(self, p, pending, enabled=None, options=None):
+    def _park(self, p, pending, enabled=None, options=None, raw=None):
         if p.abandon:
             raise Abandon()
         p.pending, p.enabled, p.options = pending, enabled, options
+        p.pending_raw = pending if raw is None else raw
         p.status = "parked"
         self.cur = None
         if not self._hand_over(p):
@@ -1519,7 +2019,7 @@ class Run:
             raise Abandon()
         self._own_lib(p)
         p.status = "running"
-        p.pending = p.enabled = p.options = None
+        p.pending = p.enabled = p.options = p.pending_raw = None
 
     def _own_lib(self, p):
         """p got the baton: the module-level / class-level data of the
@@ -1535,10 +2035,34 @@ class Run:
         if any(now) or any(new):
             _lib_load(new)
 
-    def _record(self, p, name, args, result):
+    def _sym(self, p, x, refs):
+        """_summ for the history of one of several identical processes: pid
+        numbers (integers, decimal tokens in str / bytes) do not tell who is
+        who - the own one becomes <self>, another process's <pid> and the
+        process is noted in `refs` (renamed with the state, see
+        key_and_renaming)"""
+        def repl(i, g):
+            if i == p.pid:
+                return f"<self.{g}>"
+            refs.append(i)
+            return f"<pid.{g}>"
+        if isinstance(x, (bytes, bytearray)):
+            return _summ(_pid_tokens(bytes(x), repl))
+        if isinstance(x, str):
+            return _pid_tokens(x, repl)
+        if isinstance(x, int) and not isinstance(x, bool):
+            d = pid_decode(x)
+            return x if d is None else repl(*d)
+        if isinstance(x, (list, tuple)):
+            return [self._sym(p, i, refs) for i in x]
+        return _summ(x)
+
+    def _record(self, p, name, args, result, raw=_MISSING):
         ev = (name, _summ(args), result)
-        if self.symmetric:      # own mkdtemp names must not tell who I am
-            p.hist.update(repr(ev).replace(f".p{p.pid}.", ".pSELF.")
+        if self.symmetric:      # own mkdtemp names / pid must not tell who
+            h = (name, self._sym(p, args, p.refs),      # I am
+                 result if raw is _MISSING else self._sym(p, raw, p.refs))
+            p.hist.update(repr(h).replace(f".p{p.pid}.", ".pSELF.")
                           .encode())
         else:
             p.hist.update(repr(ev).encode())
@@ -1550,10 +2074,15 @@ class Run:
         if self.finished:       # a destructor, run while the rest is collected
             raise Abandon()
         p = self.procs[self.pid()]
-        self._park(p, (name, _summ(args)), enabled)
+        self._park(p, (name, _summ(args)), enabled, raw=(name, args))
         p.lock_fail = None
         try:
             r = thunk()
+        except Unmodelled as e:
+            if self.tolerate_unmodelled:
+                self.outside_model(str(e))
+            self.bug = self.bug or e
+            raise
         except SimBug as e:
             self.bug = self.bug or e
             raise
@@ -1562,8 +2091,28 @@ class Run:
                 p.lock_fail = fail()
             self._record(p, name, args, _exc_summ(e))
             raise
-        self._record(p, name, args, _summ(r))
+        self._record(p, name, args, _summ(r), raw=r)
         return r
+
+    def outside_model(self, what):
+        """the process holding the baton is about to do something simos does
+        not model: it stays where it is for the rest of the execution (all
+        states reached with it standing there are real), is neither parked
+        nor finished, and its thread is unwound when the execution ends.
+        Does not return."""
+        if self.finished or self.cur is None:
+            raise Abandon()
+        p = self.procs[self.cur]
+        if p.abandon:
+            raise Abandon()
+        p.status = "unmodelled"
+        p.pending = p.pending_raw = ("unmodelled", what)
+        p.enabled = p.options = None
+        p.outcome = ("outside model", what)
+        self.cur = None
+        if not self._hand_over(p):
+            p.sem.acquire()
+        raise Abandon()
 
     def spin_guard(self):
         p = self.procs[self.pid()]
@@ -1605,6 +2154,8 @@ class Run:
                      lambda: self.world.exit_process(p.pid))
         p.tried.clear()
         p.flags.clear()
+        if hasattr(self.world, "new_process"):   # ... with a new pid
+            self.world.new_process(p.pid)
         if _LIBS:               # a new process: import-time library data
             self._lib_owner = None
             p.libstate = None
@@ -1642,7 +2193,7 @@ class Run:
                          lambda: self.world.exit_process(p.pid))
             p.status = "done" if p.outcome[0] == "ok" else "failed"
         except Abandon:
-            if p.status != "crashed":
+            if p.status not in ("crashed", "unmodelled"):
                 p.status = "abandoned"
         except SimBug as e:
             self.bug = self.bug or e
@@ -1714,7 +2265,7 @@ class Run:
         p.outcome = ("crashed", p.pending[0])
         p.hist.update(b"crash")
         self.log.append((self.nsteps, p.pid, "CRASH", list(p.pending), None))
-        p.pending = p.enabled = p.options = None
+        p.pending = p.enabled = p.options = p.pending_raw = None
         p.abandon = True
         p.sem.release()
         self.ctl.acquire()
@@ -1755,8 +2306,16 @@ class Run:
     def terminal(self):
         return not self.parked()
 
+    def outside(self):
+        """[(pid, what)] of the processes frozen at an unmodelled call"""
+        return [(p.pid, p.pending[1]) for p in self.procs
+                if p.status == "unmodelled"]
+
     def deadlock(self):
-        return bool(self.parked()) and not self.enabled_procs()
+        # with a process frozen outside the model nobody can tell whether
+        # the others wait for it in vain
+        return bool(self.parked()) and not self.enabled_procs() \
+            and not self.outside()
 
     def finish(self):
         global _RT
@@ -1767,7 +2326,8 @@ class Run:
         for p in self.procs:
             if p.thread is None:
                 continue
-            if p.status == "parked":    # blocked on its semaphore: unwind
+            if p.status in ("parked", "unmodelled"):
+                # blocked on its semaphore: unwind
                 p.abandon = True
                 p.sem.release()
                 self.ctl.acquire()
@@ -1790,8 +2350,17 @@ class Run:
         """-> (canonical key, {pid: canonical pid}).  For identical
         processes the key is the smallest one over all renamings that are
         compatible with the processes' own (pid independent) states."""
+        refs = {}
+
         def sig(p):
-            s = (p.status, p.nops, p.hist.hexdigest(), repr(p.pending),
+            pend = repr(p.pending)
+            if self.symmetric:
+                # pid numbers in the pending operation: as in the history
+                r = list(p.refs)
+                pend = repr(self._sym(p, p.pending_raw
+                                      if p.pending is not None else None, r))
+                refs[p.pid] = r
+            s = (p.status, p.nops, p.hist.hexdigest(), pend,
                  repr(p.options), repr(sorted(p.flags.items())))
             if self.symmetric:
                 s = tuple(x.replace(f".p{p.pid}.", ".pSELF.")
@@ -1823,8 +2392,10 @@ class Run:
         best = None
         for r in cands:
             inv = sorted(r, key=r.get)     # canonical position -> pid
+            # (whose pid numbers a process has seen, under this renaming)
             rep = repr([self.world.canon(None if r == ident else r)]
-                       + [sigs[i] for i in inv])
+                       + [sigs[i] + (tuple(r[q] for q in refs.get(i, ())),)
+                          for i in inv])
             if best is None or rep < best[0]:
                 best = (rep, r)
         return (hashlib.blake2b(best[0].encode(), digest_size=12)
@@ -1882,6 +2453,7 @@ def _observe(space, run):
         ncrashed=sum(1 for p in run.procs if p.status == "crashed"),
         terminal=run.terminal(),
         deadlock=run.deadlock(),
+        outside=run.outside(),
         outcomes=run.outcomes() if run.terminal() else None,
         describe=space.describe(run))
 
@@ -2063,6 +2635,13 @@ def _level(ctx, space, res, stats, states, frontier, expand, bounded,
                 res.outcomes.add(repr(obs["outcomes"]))
             if obs["deadlock"]:
                 stats["deadlocks"] += 1
+            if obs.get("outside"):
+                # somebody stands at a call simos does not model
+                stats["outside_model_states"] = \
+                    stats.get("outside_model_states", 0) + 1
+                stats["unmodelled_calls"] = sorted(
+                    set(stats.get("unmodelled_calls", []))
+                    | {w for _, w in obs["outside"]})
         if obs["terminal"] or obs["deadlock"]:
             continue
         allowed = _allowed(space, obs, cur, used)
@@ -2361,6 +2940,71 @@ def _conf_scripts(root):
         (0, None, "listdir", (R + "/u",), {}),
         (0, None, "rmtree", (R + "/u",), {}),
     ]
+    # a lock file written with builtin open(): it exists - empty - from the
+    # open on, the content arrives with flush / close (two points); what
+    # other processes see of it (read, stat, exists); probing its owner with
+    # kill(pid, 0); unlink + re-create while the first owner still has it
+    # open; hard links
+    s["probe"] = [
+        (0, None, "makedirs", (R + "/p",), {}),
+        (0, None, "exists", (R + "/p/l.lock",), {}),
+        (0, "f", "fopen", (R + "/p/l.lock", "x"), {}),
+        (0, None, "fwrite", ("$f", "     12345\n"), {}),
+        (1, None, "exists", (R + "/p/l.lock",), {}),
+        (1, None, "isfile", (R + "/p/l.lock",), {}),
+        (1, None, "isdir", (R + "/p/l.lock",), {}),
+        (1, None, "isdir", (R + "/p",), {}),
+        (1, None, "getsize", (R + "/p/l.lock",), {}),
+        (1, None, "stat", (R + "/p/l.lock",), {}),
+        (1, None, "stat", (R + "/p",), {}),
+        (1, None, "stat", (R + "/p/none",), {}),
+        (1, None, "getsize", (R + "/p/none",), {}),
+        (1, None, "openx", (R + "/p/l.lock", "r", None), {}),
+        (1, None, "fopen", (R + "/p/l.lock", "x"), {}),
+        (1, None, "remove", (R + "/p/l.lock",), {}),
+        (1, "g", "fopen", (R + "/p/l.lock", "x"), {}),
+        (1, None, "fwrite", ("$g", "mine\n"), {}),
+        (1, None, "fflush", ("$g",), {}),
+        (0, None, "openx", (R + "/p/l.lock", "r", None), {}),
+        (0, None, "fclose", ("$f",), {}),
+        (0, None, "fclose", ("$f",), {}),
+        (0, None, "openx", (R + "/p/l.lock", "r", None), {}),
+        (1, None, "fwrite", ("$g", "more\n"), {}),
+        (1, None, "fclose", ("$g",), {}),
+        (0, None, "getsize", (R + "/p/l.lock",), {}),
+        (0, "h", "fopen", (R + "/p/l.lock", "r"), {}),
+        (0, None, "freadline", ("$h",), {}),
+        (0, None, "fread", ("$h",), {}),
+        (0, None, "fread", ("$h",), {}),
+        (0, None, "fclose", ("$h",), {}),
+        (0, "k", "fopen", (R + "/p/l.lock", "r+"), {}),
+        (0, None, "fread", ("$k", 2), {}),
+        (0, None, "fwrite", ("$k", "XY"), {}),
+        (0, None, "fseek", ("$k", 0), {}),
+        (0, None, "fread", ("$k",), {}),
+        (0, None, "fclose", ("$k",), {}),
+        (0, None, "fopen", (R + "/p/none", "r"), {}),
+        (0, None, "fopen", (R + "/p", "w"), {}),
+        (0, None, "openx", (R + "/p/a.lock", "a", "one"), {}),
+        (0, None, "openx", (R + "/p/a.lock", "a", "two"), {}),
+        (0, None, "openx", (R + "/p/a.lock", "r", None), {}),
+        (0, None, "link", (R + "/p/a.lock", R + "/p/b.lock"), {}),
+        (0, None, "link", (R + "/p/a.lock", R + "/p/b.lock"), {}),
+        (0, None, "link", (R + "/p/none", R + "/p/c.lock"), {}),
+        (0, None, "link", (R + "/p", R + "/p/d"), {}),
+        (0, None, "openx", (R + "/p/b.lock", "a", "three"), {}),
+        (0, None, "remove", (R + "/p/a.lock",), {}),
+        (0, None, "openx", (R + "/p/b.lock", "r", None), {}),
+        (0, None, "listdir", (R + "/p",), {}),
+        # is the owner of a pid still there?
+        (0, None, "kill", ("$pid1", 0), {}),
+        (0, None, "kill", ("$pid0", 0), {}),
+        (1, None, "kill", ("$pid0", 0), {}),
+        (0, None, "kill", ("$nopid", 0), {}),
+        (1, None, "exit", (), {}),
+        (0, None, "kill", ("$pid1", 0), {}),
+        (0, None, "rmtree", (R + "/p",), {}),
+    ]
     return s
 
 
@@ -2399,6 +3043,20 @@ class _Backend:
             return sorted(o.listdir(*args))
         if op == "fstat":
             return o.fstat(*args).st_size
+        if op == "stat":        # file type, and the size of a regular file
+            st = o.stat(*args)
+            reg = st.st_mode & 0o170000 == 0o100000
+            return [st.st_mode & 0o170000, st.st_size if reg else None]
+        if op in ("exists", "isfile", "isdir", "getsize"):
+            return getattr(o.path, op)(*args)
+        if op == "fopen":       # builtin open, kept open: -> the file object
+            return self.open(*args)
+        if op in ("fwrite", "fread", "freadline", "fflush", "fclose",
+                  "fseek"):
+            f, rest = args[0], args[1:]
+            return getattr(f, {"fwrite": "write", "fread": "read",
+                               "freadline": "readline", "fflush": "flush",
+                               "fclose": "close", "fseek": "seek"}[op])(*rest)
         return getattr(o, op)(*args, **kw)
 
     def step(self, target, op, args, kw, names):
@@ -2410,6 +3068,8 @@ class _Backend:
             self.vars[target] = r
         if op in ("os_open",):
             return "fd"
+        if op == "fopen":
+            return "file"
         if op == "mkdtemp":
             names[_os.path.basename(r)] = "$" + target
             return "path"
@@ -2441,6 +3101,88 @@ def _real_child(rd, wr):
     _os._exit(0)
 
 
+def selftest_pids(ctx):
+    """pids and the symmetry reduction: three identical processes compete
+    for a lock file that carries the owner's pid; the losers read it, probe
+    the owner (kill(pid, 0)) and remember what they saw; the owner leaves
+    (or not) before.  The complete space explored with and without the
+    reduction must give the same outcomes (as multisets over the processes),
+    the reduced one must be smaller, and an unmodelled call must freeze only
+    its caller.  -> list of problems"""
+    osf = OsFacade()
+
+    def body(rt):
+        try:
+            f = sim_open("/d/l.lock", "x")
+        except FileExistsError:
+            try:
+                with sim_open("/d/l.lock") as g:
+                    txt = g.read()
+            except FileNotFoundError:
+                return "gone"
+            try:
+                osf.kill(int(txt), 0)
+            except ValueError:
+                return "empty"
+            except ProcessLookupError:
+                return "dead"
+            if int(txt) == osf.getpid():
+                return "myself?"
+            if rt.params.get("unmodelled"):
+                osf.getsid(int(txt))
+            return "alive"
+        f.write(f"{osf.getpid():10}\n")
+        f.close()
+        return "owner"
+
+    def space(sym, **params):
+        def factory():
+            run = Run(World(["/d"]), [body] * 3, params=params,
+                      symmetric=sym)
+            run.tolerate_unmodelled = bool(params)
+            return run
+        return Space(f"pids-{sym}-{sorted(params)}", factory,
+                     lambda run: [])
+    bad, got = [], {}
+    for sym in (True, False):
+        r = core.Result()
+        st = explore(ctx, space(sym), r, inline_below=1 << 30)
+        got[sym] = (st["states"], sorted(
+            {repr(sorted(eval(o), key=repr)) for o in r.outcomes}))
+    if got[True][1] != got[False][1]:
+        bad.append(f"outcomes differ: reduced {got[True][1]} complete "
+                   f"{got[False][1]}")
+    if not any("dead" in o for o in got[True][1]) or \
+            not any("alive" in o for o in got[True][1]) or \
+            not any("empty" in o for o in got[True][1]):
+        bad.append(f"dead / alive / empty owner not all seen: {got[True][1]}")
+    if any("myself" in o for o in got[False][1]):
+        bad.append("a process read its own pid from another's file")
+    if not got[True][0] * 3 < got[False][0]:
+        bad.append(f"no reduction: {got[True][0]} states vs {got[False][0]}")
+    r = core.Result()
+    st = explore(ctx, space(True, unmodelled=1), r, inline_below=1 << 30)
+    if not st.get("outside_model_states") or st.get("unmodelled_calls") != \
+            ["os.getsid is not modelled by simos"]:
+        bad.append(f"unmodelled call not counted: {st}")
+    if r.violations or not any("owner" in o and "outside model" in o
+                               for o in r.outcomes):
+        bad.append("frozen process: others did not go on / deadlock reported")
+    return bad
+
+
+def _unused_pid():
+    """a pid number that no process of this machine has right now"""
+    for n in range(4194000, 4194300):
+        try:
+            _os.kill(n, 0)
+        except ProcessLookupError:
+            return n
+        except OSError:
+            continue
+    raise SimBug("no unused pid found for the conformance test")
+
+
 def conformance(scratch_parent="/tmp"):
     """-> list of differences between model and real OS (empty = OK)"""
     import fcntl
@@ -2467,6 +3209,8 @@ def conformance(scratch_parent="/tmp"):
             _os.close(p2c_r)
             to_c, from_c = _os.fdopen(p2c_w, "wb"), _os.fdopen(c2p_r, "rb")
             be = _Backend((_os, fcntl, shutil, tempfile, open))
+            be.vars.update(pid0=_os.getpid(), pid1=child,
+                           nopid=_unused_pid())
             names, real = {}, []
             try:
                 for pid, target, op, args, kw in script:
@@ -2509,6 +3253,9 @@ def conformance(scratch_parent="/tmp"):
             mods = (OsFacade(), FcntlFacade(), ShutilFacade(),
                     TempfileFacade(), sim_open)
             bes = {0: _Backend(mods), 1: _Backend(mods)}
+            bes[0].vars.update(pid0=w.ospid(0), pid1=w.ospid(1),
+                               nopid=pid_number(PID_STRIDE - 1))
+            w.nprocs = 2
             names, model = {}, []
             with DirectRuntime(w) as rt:
                 for pid, target, op, args, kw in script:
